@@ -57,11 +57,20 @@ CHECKS = {
  "C20": ("Lean theorems over the reals: documented cutoff <=> exp(-ab/(a+b) d^2) < tol, monotone in the tolerance, conservative bound for s-type elements; check: blockwise comparison of screened vs unscreened overlap with distances bracketing the cutoff, tolerances 1e-16..0.5, None, transforms, booleans rejected",
          "float64 evaluation of the cutoff; ties avoided by bracketing",
          "Lean 4 proof + blockwise differential check"),
+ "C09": ("Translator + Lean: every construct_array_{cartesian,spherical,mix,lincomb} pipeline of the four base classes is extracted from the source with ast on every run (34 block programs over all coordinate-type flag patterns, 4 lincomb chains, the lower-triangle fill) and checked in the kernel against the symbolic criterion pipelineOk / lincombOk (axes fused segment-major, norm_cont on (segment, Cartesian component) before the transformation, each spherical slot contracted with its own matrix, trailing axes untouched) — symbolic, hence for all shapes; reference theorems show the criterion accepts the right programs and rejects the typical mistakes; exact labelled-block test of all four classes against an independent index formula; relational checks of every public function (spherical/mixed vs T.cartesian, transform= vs explicit contraction, component order/sign conventions)",
+         "soundness of the symbolic axis calculus w.r.t. the index-wise semantics of the NumPy operations is proved in GBProofs/AxisCalculus.lean when present (otherwise validated by the exact labelled-block test on every run); NumPy's own semantics is trusted through that test",
+         "AST translator -> Lean decide obligations (symbolic axis calculus) + exact integer differential test"),
+ "C18": ("Lean token-line model of parse_nwchem / parse_gbs / make_contractions with kernel-evaluated instances (zero, one, many lines before the first element; SP shells; D exponents) and round-trip theorems in GBProofs/ParserProofs.lean when present; check: random well-formed files rendered with comments, blank lines, white-space variation and 0/1/2/7 preamble lines must give back exactly the shells written, and the implementation must agree with the Lean model on the token lines of every file (repository data files as corpus); make_contractions with string/list/tuple coordinate types, arguments snapshotted, repeated calls; from_pyscf on a duck-typed Mole",
+         "regular-expression behaviour below the token level (tabs, \\s* spanning lines) is covered by the file-level correspondence only; from_iodata is outside the model (package absent)",
+         "Lean model + kernel-evaluated instances (+ round-trip proof) + differential correspondence on rendered files"),
+ "C19": ("Lean theorem history_pure: if every effect summary is pure, no history of calls of any length (returning or raising) changes an argument object or the process-wide floating-point error state, and results do not depend on the history; the hypothesis is discharged by decide for the summaries that the static effect translator extracts from every function of the package on every run (mutating statements with a path-joining alias analysis, np.seterr protection); counter-example theorems for the two repaired defects; monitored random histories of 1-30 valid and invalid public calls with bitwise snapshots of all arguments, shells and numpy.geterr(), repeated-call equality, freshness of every construct_array_contraction result, renormalisation after parameter updates",
+         "the alias analysis is a conservative syntactic approximation (calls are assumed to allocate their results: checked dynamically by the freshness test); C extensions of NumPy/SciPy are assumed not to mutate their inputs",
+         "static effect translator -> Lean decide obligation + history theorem + monitored histories"),
 }
 
 NOT_APPLICABLE = {}
 
-PENDING = ["C09", "C18", "C19"]
+PENDING = []
 
 
 def main():
